@@ -44,16 +44,18 @@ MAX_ROWS = 6
 
 
 def exact_pl(spot, unit, cost, payoff, first):
-    """spot, unit: [H][T] Fractions for one path. Returns (value, sum of |terms|)."""
+    """spot, unit: [H][T] Fractions for one path. Returns (value, sum of |gain terms|, sum of |cost terms|, sum of |position| * (|S_t| + |S_t+1|))."""
     H, T = len(spot), len(spot[0])
     val = Fraction(0)
     mag = Fraction(0)
     cmag = Fraction(0)
+    smag = Fraction(0)
     for h in range(H):
         for i in range(T - 1):
             g = unit[h][i] * (spot[h][i + 1] - spot[h][i])
             val += g
             mag += abs(g)
+            smag += abs(unit[h][i]) * (abs(spot[h][i + 1]) + abs(spot[h][i]))
         if cost is not None:
             c = cost[h]
             tc = Fraction(0)
@@ -69,7 +71,7 @@ def exact_pl(spot, unit, cost, payoff, first):
     if payoff is not None:
         val -= payoff
         mag += abs(payoff)
-    return val, mag, cmag
+    return val, mag, cmag, smag
 
 
 def _rows(n, rng_seed):
@@ -113,9 +115,12 @@ def judge_pl(ctx, monitor, out, spot, unit, cost, payoff, first, sig, extra=None
     outv = out[rows].detach().to(F64).tolist()
     worst = None
     for j, r in enumerate(rows):
-        val, mag, cmag = exact_pl(sp[j], un[j], cost_fr, po[j] if po is not None else None, first)
+        val, mag, cmag, smag = exact_pl(sp[j], un[j], cost_fr, po[j] if po is not None else None, first)
         # (+ gradual underflow: every product / sum may lose up to one smallest subnormal of the dtype)
-        bound = 4 * (3 * H * T + 4) * e * float(mag + cmag) + 2 * e32 * float(cmag) + 4 * (3 * H * T + 4) * float(torch.finfo(dtype).tiny) * e
+        # (+ the gains summed as sum(position * S_t+1) - sum(position * S_t) instead of sum(position * price change): an equally valid evaluation of the
+        #  same identity whose rounding error is governed by |position| * |price| rather than |position| * |price change|)
+        bound = (4 * (3 * H * T + 4) * e * float(mag + cmag) + (H * T + 4) * e * float(smag) + 2 * e32 * float(cmag)
+                 + 4 * (3 * H * T + 4) * float(torch.finfo(dtype).tiny) * e)
         got = outv[j]
         err = abs(Fraction(got) - val) if np.isfinite(got) else None
         if err is None or float(err) > bound:
